@@ -12,7 +12,7 @@ is compared EXACTLY with the model evaluated by vm_compute inside Coq, and with 
 specification (Born marginal, projection, `explainsb`).  The random draws of the implementation
 (np.random.choice, np.random.shuffle, sample_frequencies) are recorded and fed to the model.
 """
-STATIC = ["C03/Props", "C03/Check"]
+STATIC = ["C03/Props", "C03/Check", "C03/PropsHandles"]
 import collections
 import contextlib
 import random
@@ -158,6 +158,10 @@ def random_registers(rng, n):
     return regs
 
 
+CYCLIC_LAYOUTS = [[[2, 0, 1]], [[1, 2, 0]], [[2], [0], [1]], [[1], [2], [0]], [[2, 0], [1]], [[1], [2, 0]], [[1, 3, 0, 2]], [[3, 0], [2]]]
+CYCLIC_LISTS = [[2, 0, 1], [1, 2, 0], [3, 0, 2], [1, 3, 0], [0, 3, 1]]
+
+
 def backend():
     import qibo
     from qibo.backends import _Global
@@ -252,9 +256,10 @@ class HistoryRun:
     """executes a history of operations on ONE circuit object with the real code, recording the
     draws; produces the Coq history (with oracle payloads) and the implementation's outputs"""
 
-    def __init__(self, be, n, regs):
+    def __init__(self, be, n, regs, density_matrix=False):
         self.be, self.n, self.regs = be, n, regs
-        self.circuit = make_circuit(n, regs)
+        self.density_matrix = density_matrix
+        self.circuit = make_circuit(n, regs, density_matrix=density_matrix)
         self.results = []       # real result objects
         self.scales = []        # 4^j per result
         self.ops_coq, self.outs_coq, self.log = [], [], []
@@ -263,6 +268,8 @@ class HistoryRun:
         self.handle_checks = []   # Coq booleans: MeasurementResult.frequencies() of the handles right after a frequency draw
 
     def execute(self, ints, j, nshots):
+        if self.density_matrix:
+            return self.execute_dm(ints, j, nshots)
         psi = np.array(ints, dtype=complex) / 2 ** j
         r = self.circuit(initial_state=psi.copy(), nshots=nshots)
         st = np.asarray(r.state())
@@ -277,6 +284,22 @@ class HistoryRun:
         self.ops_coq.append(f"Exec {z_list(w)} {nshots}%nat")
         self.outs_coq.append("ODone")
         self.log.append({"op": "exec", "state_times_2^j": [str(a) for a in ints], "j": j, "nshots": nshots})
+        return len(self.results) - 1
+
+    def execute_dm(self, ints, j, nshots):
+        """the same execution in density-matrix mode: rho = |psi><psi| (exact dyadic entries, scale 4^j)"""
+        rho_int = [[complex(a) * complex(b).conjugate() for b in ints] for a in ints]
+        rho = np.array(rho_int, dtype=complex) / 4 ** j
+        r = self.circuit(initial_state=rho.copy(), nshots=nshots)
+        st = np.asarray(r.state())
+        if st.shape != rho.shape or not np.array_equal(st, rho):
+            self.problems.append(("state", "result.state() differs from the executed density matrix"))
+        w = [int(round(abs(complex(a)) ** 2)) for a in ints]
+        self.results.append(r)
+        self.scales.append(4 ** j)
+        self.ops_coq.append(f"Exec {z_list(w)} {nshots}%nat")
+        self.outs_coq.append("ODone")
+        self.log.append({"op": "exec", "density_matrix": True, "state_times_2^j": [str(a) for a in ints], "j": j, "nshots": nshots})
         return len(self.results) - 1
 
     def adopt(self, r, ints, j, nshots):
@@ -607,7 +630,12 @@ def one_view_history(run, be, i, replaying=False):
     regs = random_registers(crng, n)
     while freq_first and len(regs) < 2:
         regs = random_registers(crng, n)
-    hr = HistoryRun(be, n, regs)
+    if i % 5 == 4:
+        # cyclic orders of >= 3 qubits (a permutation and its inverse coincide on swaps), one or several registers
+        regs = [list(r) for r in CYCLIC_LAYOUTS[(i // 5) % len(CYCLIC_LAYOUTS)]]
+        n = max(q for r in regs for q in r) + 1
+        freq_first = freq_first and len(regs) >= 2
+    hr = HistoryRun(be, n, regs, density_matrix=(i % 3 == 2 and n <= 3))
     ints, j = dyadic_state(crng, n, deterministic=(i % 9 == 8 and not freq_first))
     while freq_first and sum(1 for a in ints if a != 0) < 3:
         ints, j = dyadic_state(crng, n)
@@ -755,6 +783,9 @@ def collapse_circuit_case(run, be, i):
     crng = random.Random(f"{run.seed}:collapse:{i}")
     n = crng.randint(2, 4)
     tq = ordered_sublist(crng, n, 1, 3, want_unsorted=(i % 4 != 3))
+    if i % 5 == 4:
+        tq = list(CYCLIC_LISTS[(i // 5) % len(CYCLIC_LISTS)])
+        n = max(max(tq) + 1, n)
     ints, j = dyadic_state(crng, n)
     post = random_post_gates(crng, n)
     nshots = crng.randint(1, 3)
@@ -977,6 +1008,9 @@ def part_symbols(run, rng, be, count):
         crng = random.Random(f"{run.seed}:symbols:{i}")
         n = crng.randint(2, 4)
         tq = ordered_sublist(crng, n, 2, 3, want_unsorted=(i % 3 != 2))
+        if i % 4 == 3:
+            tq = list(CYCLIC_LISTS[(i // 4) % len(CYCLIC_LISTS)])
+            n = max(max(tq) + 1, n)
         x = [crng.randint(0, 1) for _ in range(n)]
         psi = np.zeros(2 ** n, dtype=complex)
         psi[int("".join(map(str, x)), 2)] = 1
@@ -1016,16 +1050,17 @@ def part_symbols(run, rng, be, count):
 
 
 # ------------------------------------------------------------------ part F: results of repeated execution
-def repeated_circuit(crng, n):
+def repeated_circuit(crng, n, density_matrix=False, regs=None):
     """a state-vector circuit with a collapsing measurement: executed shot by shot, the result is a
-    MeasurementOutcomes built from the aggregated samples"""
+    MeasurementOutcomes built from the aggregated samples (density_matrix=True: a CircuitResult with the
+    averaged state and the aggregated samples)"""
     from qibo import Circuit, gates
-    c = Circuit(n)
+    c = Circuit(n, density_matrix=density_matrix)
     cq = crng.sample(range(n), crng.randint(1, min(2, n)))
     c.add(gates.M(*cq, collapse=True))
     for _ in range(crng.randint(0, 2)):
         c.add(gates.X(crng.randrange(n)))
-    regs = random_registers(crng, n)
+    regs = random_registers(crng, n) if regs is None else regs
     for reg in regs:
         c.add(gates.M(*reg))
     return c, regs, cq
@@ -1056,13 +1091,19 @@ def part_repeated(run, rng, be, count):
     for i in range(count):
         crng = random.Random(f"{run.seed}:repeated:{i}")
         n = crng.randint(1, 3)
-        c, regs, cq = repeated_circuit(crng, n)
+        fixed = None
+        if i % 3 == 2:
+            fixed = [list(r_) for r_ in CYCLIC_LAYOUTS[(i // 3) % 6]]
+            n = 3
+        dm_ = (i % 4 == 1)
+        c, regs, cq = repeated_circuit(crng, n, density_matrix=dm_, regs=fixed)
         ints, j = dyadic_state(crng, n)
         nshots = crng.randint(1, 6)
         be.set_seed(crng.randrange(2 ** 31))
         try:
             with np.errstate(all="ignore"):
-                r = c(initial_state=np.array(ints, dtype=complex) / 2 ** j, nshots=nshots)
+                psi_ = np.array(ints, dtype=complex) / 2 ** j
+                r = c(initial_state=(np.outer(psi_, psi_.conj()) if dm_ else psi_), nshots=nshots)
             S = [int(x) for x in np.asarray(r.samples(binary=False)).tolist()]
             terms = view_terms(r, c.measurements, regs, "repeated", run, {"part": "repeated", "case": i})
         except Exception as e:  # noqa
@@ -1071,7 +1112,7 @@ def part_repeated(run, rng, be, count):
                      {"part": "repeated", "case": i, "n": n, "collapse": f"M({','.join(map(str, cq))}, collapse=True)", "registers": regs,
                       "state_times_2^j": [str(a) for a in ints], "j": j, "nshots": nshots, "raised": repr(e)[:300]})
             continue
-        info = {"part": "repeated", "case": i, "n": n, "collapse": f"M({','.join(map(str, cq))}, collapse=True)", "registers": regs,
+        info = {"part": "repeated", "case": i, "n": n, "density_matrix": dm_, "collapse": f"M({','.join(map(str, cq))}, collapse=True)", "registers": regs,
                 "state_times_2^j": [str(a) for a in ints], "j": j, "nshots": nshots, "samples": S}
         run.case({"repeated": info}, len(regs) > 1 or len(regs[0]) > 1)
         if i == 0:
@@ -1802,8 +1843,8 @@ RULE = ("probabilities: random n<=5, random duplicate-free ordered qubit lists (
 
 def budgets(tier):
     if tier == "thorough":
-        return {"probs": 480, "conv": 200, "views": 900, "collapse": 300, "direct": 240, "symbols": 60, "repeated": 120, "bookkeeping": 600, "bitflip": 300, "bitflip_accessor": 400, "conditioned": 300, "batches": 240}
-    return {"probs": 150, "conv": 60, "views": 160, "collapse": 70, "direct": 60, "symbols": 20, "repeated": 30, "bookkeeping": 120, "bitflip": 60, "bitflip_accessor": 90, "conditioned": 60, "batches": 60}
+        return {"probs": 480, "conv": 200, "views": 900, "collapse": 300, "direct": 240, "symbols": 60, "repeated": 120, "bookkeeping": 600, "bitflip": 300, "bitflip_accessor": 400, "conditioned": 300, "batches": 240, "near_exact": 220}
+    return {"probs": 150, "conv": 60, "views": 160, "collapse": 70, "direct": 60, "symbols": 20, "repeated": 30, "bookkeeping": 120, "bitflip": 60, "bitflip_accessor": 90, "conditioned": 60, "batches": 60, "near_exact": 66}
 
 
 def static_obligations(run, theory):
@@ -1870,7 +1911,12 @@ def main(run):
     safe_part(run, "bitflip_accessor", lambda: part_bitflip_accessor(run, rng, be, b["bitflip_accessor"]))
     safe_part(run, "conditioned", lambda: part_conditioned(run, rng, be, b["conditioned"]))
     safe_part(run, "batches", lambda: part_batches(run, rng, be, b["batches"]))
-    return run.finish(rule=RULE)
+    from harness import c03_g
+    run.not_proved += [n_ for n_ in static_obligations(run, "C03/PropsHandles") if n_.endswith("_partial")]
+    safe_part(run, "near_exact", lambda: c03_g.part_near_exact(run, be, b["near_exact"]))
+    safe_part(run, "near_float", lambda: c03_g.part_near_float(run, be))
+    safe_part(run, "routes", lambda: c03_g.part_routes(run, be, c03_g.routes_count(run.tier)))
+    return run.finish(rule=RULE + c03_g.RULE)
 
 
 def replay(run, data):
@@ -1903,6 +1949,11 @@ def replay(run, data):
             part_bitflip_accessor(run, None, be, 0, only=[i])
     elif part == "bookkeeping":
         part_bookkeeping(run, None, be, 0, only=[i])
+    elif part in ("near_exact", "near_float", "routes"):
+        from harness import c03_g
+        {"near_exact": lambda: c03_g.part_near_exact(run, be, 0, only=[i]),
+         "near_float": lambda: c03_g.part_near_float(run, be, only=[i]),
+         "routes": lambda: c03_g.part_routes(run, be, 0, only=[i])}[part]()
     elif part == "repeated":
         part_repeated(run, None, be, i + 1)
         run.findings = [f for f in run.findings if f.key == data.get("key") and f.replay.get("case") == i]
